@@ -20,11 +20,10 @@ def roundtrip_detail(c, F=None):
         s = str(c)
     except Exception as e:  # noqa
         return f"str raised {type(e).__name__}: {e}"
-    try:
-        c2 = parse_constraint(s)
-    except Exception as e:  # noqa
-        return f"text {s!r} does not parse back: {type(e).__name__}"
-    bounds = I.bounds_of(c) + I.bounds_of(c2)
+    c2, g2 = I.parse_with_groups(s)
+    if isinstance(c2, Exception):
+        return f"text {s!r} does not parse back: {type(c2).__name__}"
+    bounds = I.bounds_of(c) + I.mentioned_bounds(c2, g2)
     for v in I.critical_probes(bounds):
         if I.regular(v, bounds) and c.allows(v) != c2.allows(v):
             return f"text {s!r} re-parses to {c2} which differs on {v.text}"
